@@ -130,7 +130,14 @@ func parseStep(param lokiapi.OptPrometheusDuration, start, end time.Time) (time.
 	if !ok {
 		return defaultStep(start, end), nil
 	}
-	return parseDuration(v)
+	d, err := parseDuration(v)
+	if err != nil {
+		return 0, err
+	}
+	if !(d > 0) {
+		return 0, errors.Errorf("step must be positive, got %q", string(v))
+	}
+	return d, nil
 }
 
 func defaultStep(start, end time.Time) time.Duration {
